@@ -1082,6 +1082,9 @@ class MoneyConverter:
             else:
                 raise ValueError(f"Not a valid period: {validity}.")
         elif isinstance(validity, tuple):
+            if all(isinstance(item, str) for item in validity):
+                # strings convertable to an int (ValueError otherwise)
+                validity = tuple(int(item) for item in validity)
             dt_str = f"{validity[0]:04d}-{validity[1]:02d}-01"
             try:  # verify year and month
                 dt = date.fromisoformat(dt_str)
